@@ -93,7 +93,7 @@ def render_job(job):
     return lines
 
 
-def run_jobs(cases, budget=25.0):
+def run_jobs(cases, budget=10.0):
     """Run several senders AT THE SAME TIME in this process, each against its
     own firmware simulator; returns one result tuple per case."""
     import threading
@@ -121,7 +121,7 @@ def run_jobs(cases, budget=25.0):
     return results
 
 
-def run_job(case, budget=20.0, _patched=False, _barrier=None, _lock=None):
+def run_job(case, budget=8.0, _patched=False, _barrier=None, _lock=None):
     try:
         return _run_job(case, budget, _patched, _barrier, _lock)
     except BaseException as e:
@@ -180,6 +180,18 @@ def _run_job(case, budget, _patched, _barrier, _lock):
         for cmd in (append or ()):
             # commands handed to send() while the job is running are appended to it
             p.send(cmd)
+        if case.get("prio"):
+            # priority commands (send_now) go out unnumbered between job lines:
+            # they are no part of the job and must not disturb it.  They are
+            # issued once the first job line is on the wire: until the print thread
+            # has stopped the idle sender thread (up to 0.1 s after startprint())
+            # that thread can take a command without waiting for acknowledgements
+            # (upstream Printrun behaviour, outside C15's quantifier; DESIGN 7.5)
+            t1 = time.time()
+            while not fw.transmissions and time.time() - t1 < 0.4:
+                time.sleep(0.002)
+            for cmd in case["prio"]:
+                p.send_now(cmd)
         t0 = time.time()
         last_progress = (-1, -1, -1)
         last_change = time.time()
@@ -208,6 +220,10 @@ def _run_job(case, budget, _patched, _barrier, _lock):
         p = printcore()
         p.loud = False
         p.errorcb = errors.append
+        if case.get("tcp_streaming"):
+            # the streaming switch is meant for links with flow control; on a
+            # serial link the sender still has to wait for every acknowledgement
+            p.tcp_streaming_mode = True
         try:
             connect(p, fw)
             app = list(case.get("append") or ())
@@ -317,6 +333,10 @@ def _judge(case, result, cl):
         cl.add("commands_appended_with_send_while_printing")
     if getattr(fw, "sync_reply", False):
         cl.add("reply_handled_before_write_returns")
+    if case.get("prio"):
+        cl.add("priority_commands_during_the_job")
+    if case.get("tcp_streaming"):
+        cl.add("tcp_streaming_mode_on_a_serial_link")
     if getattr(fw, "second", None):
         cl.add("second_job_on_same_sender:" + fw.second)
     job_desc = f"job={render_job(case['job'])!r} corrupt={sorted(case['corrupt'])} " \
@@ -440,11 +460,13 @@ def strategy():
     return st.fixed_dictionaries({
         "job": job_strategy(),
         "corrupt": st.one_of(st.just([]), st.lists(st.integers(0, 40), max_size=6, unique=True),
-                             st.lists(st.integers(0, 12), max_size=8, unique=True)).map(sorted),
+                             st.lists(st.integers(0, 12), max_size=5, unique=True)).map(sorted),
         "lat": st.one_of(st.lists(st.integers(0, 6), min_size=1, max_size=7), st.just([0])),
         "dialect": st.sampled_from(["marlin", "marlin", "marlin_nospace", "teacup"]),
         "greeting": st.sampled_from(["start", None]),
         "sync_reply": st.sampled_from([False, False, True]),
+        "prio": st.sampled_from([None, None, None, ["M105"], ["M105", "M114"]]),
+        "tcp_streaming": st.sampled_from([False, False, False, True]),
         "append": st.sampled_from([None, None, None, ["M104 S0", "M140 S0", "M84"], ["M400"]]),
         "second": st.one_of(st.none(), st.none(), st.none(), st.fixed_dictionaries({
             "job": job_strategy(), "reconnect": st.booleans(),
@@ -470,7 +492,7 @@ FIXED_JOB = [{"k": "cmd", "cmd": i, "a": i, "b": i + 1} for i in range(6)]
 
 
 def run_shard(ctx):
-    n = 70 if ctx.tier == "quick" else 1500
+    n = 60 if ctx.tier == "quick" else 1500
 
     def body(case):
         cl = set()
